@@ -85,6 +85,11 @@ func (c *MockCollectionHandler) InsertOne(doc map[string]interface{}) (interface
 	c.mu.Lock()
 	defer c.mu.Unlock()
 
+	return c.insertLocked(doc), nil
+}
+
+// insertLocked appends a copy of doc; the caller holds c.mu.
+func (c *MockCollectionHandler) insertLocked(doc map[string]interface{}) interface{} {
 	docCopy := copyDoc(doc)
 	if _, ok := docCopy["_id"]; !ok {
 		c.mock.mu.Lock()
@@ -93,18 +98,18 @@ func (c *MockCollectionHandler) InsertOne(doc map[string]interface{}) (interface
 		c.mock.mu.Unlock()
 	}
 	c.docs = append(c.docs, docCopy)
-	return docCopy["_id"], nil
+	return docCopy["_id"]
 }
 
-// InsertMany inserts multiple documents.
+// InsertMany inserts multiple documents as one operation: readers see all of
+// them or none.
 func (c *MockCollectionHandler) InsertMany(docs []map[string]interface{}) ([]interface{}, error) {
+	c.mu.Lock()
+	defer c.mu.Unlock()
+
 	ids := make([]interface{}, len(docs))
 	for i, doc := range docs {
-		id, err := c.InsertOne(doc)
-		if err != nil {
-			return nil, err
-		}
-		ids[i] = id
+		ids[i] = c.insertLocked(doc)
 	}
 	return ids, nil
 }
